@@ -23,6 +23,8 @@ for pid in sorted(plan.PLANS):
     extra = []
     if p.get("l2", True):
         extra.append("L2 conformance (KanalTrace, 4 capacities, drift escalation)")
+    if p.get("spec_l1l0"):
+        extra.append("L1-simulated histories through the L0 monitors and the L1 validator")
     if p.get("spec_replay"):
         extra.append("spec->impl replay of simulated Kanal.tla behaviours")
     rows.append("| %s | %s | %s | %s |" % (pid, mc, "; ".join(runs), "; ".join(extra)))
